@@ -78,6 +78,11 @@ const CONTENTS: &[&str] = &[
     "#{\n    let a = 1\n}\n",
     "text ]\n",
     "ok\n",
+    // more import statements: the flag must reach every front end (C19), and must not act where the
+    // guards (comments, duplicate names) or its absence say so
+    "#import \"m.typ\": zeta, beta as b, gamma.inner, alpha\n",
+    "#import \"m.typ\": (b, /* c */ a)\n",
+    "#import \"m.typ\": b, a as b\n#import \"n.typ\": y,x\ntext\n",
 ];
 const FILE_NAMES: &[&str] = &[
     "a.typ", "b.typ", "c.typ", "main.typ", "notes.txt", ".hidden.typ", "noext", "d.TYP", "e.typ.bak", "x.y.typ", "README.md", "typ",
@@ -736,6 +741,42 @@ pub fn oracles(sc: &Scenario, o: &Observed) -> Vec<(&'static str, &'static str, 
                         if !hygienic(t) {
                             f.push(("C11", "cli-file", format!("{} is well-formed but does not hold hygienic text after the in-place run: {:?}", p, t.chars().take(80).collect::<String>())));
                         }
+                    }
+                }
+            }
+        }
+        // C19: the request reaches every front end.  What a front end leaves (in the file, or on stdout for a
+        // single input) for a well-formed input with import statements relates to the source as C19 demands of
+        // the two settings: items in source order with the flag off, sorted with it on (the library's result
+        // under the *other* setting stands for the other side of the comparison).
+        if o.exit == 0 {
+            let mut outs: Vec<(String, String)> = vec![];
+            if writes {
+                for (i, inp) in inputs.iter().enumerate() {
+                    if let (Some(x), Some(t)) = (inp, targets.get(i)) {
+                        if targets.iter().filter(|u| *u == t).count() != 1 {
+                            continue;
+                        }
+                        let p = t.trim_start_matches("./").to_string();
+                        if let Some(Ok(now)) = after.get(&p).map(|b| std::str::from_utf8(b)) {
+                            outs.push((x.clone(), now.to_string()));
+                        }
+                    }
+                }
+            } else if inputs.len() == 1 {
+                if let Some(x) = &inputs[0] {
+                    outs.push((x.clone(), o.stdout.clone()));
+                }
+            }
+            for (x, t) in outs {
+                if !x.contains("import") || lib(a, &x).is_none() {
+                    continue;
+                }
+                let other = crate::obs::format(&x, Cfg { tab: a.tab, width: a.column, blank: 2, reorder: !a.reorder });
+                if let Ok(other) = other {
+                    let r = if a.reorder { crate::obs::check_c19(&x, &other, &t) } else { crate::obs::check_c19(&x, &t, &other) };
+                    if let Some(m) = r {
+                        f.push(("C19", "cli-imports", format!("front end with reordering {}: {}", if a.reorder { "on" } else { "off" }, m)));
                     }
                 }
             }
